@@ -93,15 +93,17 @@ def build_emit(args):
     from decaylanguage.modeling.amplitudechain import AmplitudeChain
     ampio.fast_lookup()
     AmplitudeChain.cartesian = False
-    text = "EventType " + " ".join(event) + "\n" + goofitio.render_tree(line) + "  0 1.0 0.1  0 0.5 0.1\n" \
+    text = "EventType " + " ".join(event) + "\n" + goofitio.render_tree(line) + "  0 1.0 0.1  0 0.5 0.1" \
+        + rng.choice(["", "", "   # the only amplitude", "\t#fixed"]) + "\n" \
         + "\n".join(goofitio.support_lines([line], rng)) + "\n"
     cls = GooFitChain if lang == "cpp" else GooFitPyChain
     obs = {"raised": "-", "sfs": [], "lss": [], "n": -1, "groups": []}
     code = ""
     try:
-        lines, states = cls.read_ampgen(text=text)
+        lines, states = goofitio.read_options(cls, text, (cid // 2) % 3 if isinstance(cid, int) else 0)
         if len(lines) != 1:
-            raise Machinery(f"C18 text gives {len(lines)} amplitudes:\n{text}")
+            # one complete line was written: any other number of amplitudes is an observation, judged as a refusal
+            raise RuntimeError(f"count: {len(lines)} amplitudes read from a text with one complete line")
         code = lines[0].to_goofit(states[1:])
         if lines[0].to_goofit(states[1:]) != code:
             raise RuntimeError("the same amplitude object emits another text when asked again")
@@ -178,11 +180,13 @@ def build_emit_file(args):
                 order.append(body[bi]); bi += 1
             else:
                 order.append(subs[si]); si += 1
+    if cid % 2:
+        order = goofitio.with_remarks(order, rng)
     text = "EventType " + " ".join(event) + "\n" + "\n".join(order) + "\n" + "\n".join(goofitio.support_lines(expected, rng)) + "\n"
     cls = GooFitChain if lang == "cpp" else GooFitPyChain
     out = []
     try:
-        lines, states = cls.read_ampgen(text=text)
+        lines, states = goofitio.read_options(cls, text, cid % 3)
         codes = []
         for ln in lines:
             try:
